@@ -729,4 +729,3 @@ func hasFlatten(m *tMsg) bool {
 	}
 	return false
 }
-
